@@ -42,7 +42,10 @@ func newWorld(store string, init map[string]string) *world {
 	}
 	w := &world{rec: &lin.Recorder{}, init: map[string]string{}, store: store}
 	w.root = view{s, nil}
-	v, err := s.WithRealm([]byte{0x00})
+	// the caller's realm slice has spare capacity (legal, and what WithExtendedRealm produces as well): a view must
+	// never write behind its realm
+	realm := make([]byte, 1, 16)
+	v, err := s.WithRealm(realm)
 	if err != nil {
 		panic(err)
 	}
@@ -261,6 +264,14 @@ func scenarios() []*sched.Scenario {
 		{"clear", func(w *world, c int, v view) { w.clear(c, v) }},
 		{"batch", func(w *world, c int, v view) {
 			w.batch(c, v, bop{key: rel(v, k1), val: "c"}, bop{del: true, key: rel(v, k2)})
+		}},
+		// a view derived while the other thread is inside an operation on the parent, then used
+		{"newview+set+get", func(w *world, c int, v view) {
+			ns, err := v.s.WithExtendedRealm([]byte{0x05})
+			must(err)
+			nv := view{ns, append(append([]byte{}, v.realm...), 0x05)}
+			w.set(c, nv, "\x01", "n")
+			w.get(c, nv, "\x01")
 		}},
 	}
 	for i, a := range ops {
